@@ -743,9 +743,6 @@ def explain_forces(m, d, qpos, qvel, ctrl, act, got, bad, tol):
   out = {}
   for i in bad:
     on_lim = m.actuator_trntype[i] == TEN and bool(m.tendon_actfrclimited[m.actuator_trnid[i, 0]])
-    if user_out(i) or (on_lim and int(m.actuator_trnid[i, 0]) in user_tendons):  # (the tendon total contains such a force)
-      out.setdefault("user-actlimit", i)
-      continue
     if on_lim and int(m.actuator_trnid[i, 0]) in dc_tendons:  # the tendon total (hence every scale factor on it) contains the mechanical force
       out.setdefault("dc-mech", i)
       continue
@@ -755,6 +752,11 @@ def explain_forces(m, d, qpos, qvel, ctrl, act, got, bad, tol):
     lin = servo_linear(m, d, i)
     if lin is not None and abs(got[i] - lin) <= tol[i] + 5e-4 * abs(lin):
       out.setdefault("servo-wrap", i)
+      continue
+    # last (regression class, /repo 0fa25c6 clamps user activations): only when none of the open, evidence-based classes
+    # explains the force - a user activation outside actrange used early, or a tendon total containing such a force
+    if user_out(i) or (on_lim and int(m.actuator_trnid[i, 0]) in user_tendons):
+      out.setdefault("user-actlimit", i)
       continue
     return None
   return out or None
